@@ -427,7 +427,7 @@ RUN_KEYS = ["max_tries", "max_concurrent_tries", "rerun_status", "stop_status", 
 
 class Sim:
     def __init__(self, scenario, run_params=None, pools=None, durations=None, outcomes=None,
-                 always_fail=None, previous=None, max_iterations=400_000, scratch=None):
+                 always_fail=None, previous=None, max_iterations=100_000, scratch=None):
         self.scenario = scenario
         self.run_params = dict(run_params or {})
         self.pools = pools or Pools()
@@ -493,7 +493,8 @@ class Sim:
         for node in graph.nodes:
             for key, value in self.run_params.items():
                 if value is None:
-                    node.params.pop(key, None)
+                    if key in node.params:
+                        del node.params[key]
                 else:
                     node.params[key] = str(value)
         for worker in graph.workers.values():
